@@ -10,7 +10,8 @@ import (
 // the last three are long and made of multi-byte characters (2, 3 and 2 bytes each, at different
 // alignments): whatever quotes, cuts or pads a key by bytes meets a character boundary problem
 var keyPool = []string{"a", "b", "c", "key-ü-ключ-鍵", "dir/with/slash", "sp ace", strings.Repeat("long", 80), "Z", "a.b", "0",
-	strings.Repeat("ключ", 70), "k" + strings.Repeat("鍵", 190), strings.Repeat("é", 333) + "-z"}
+	strings.Repeat("ключ", 70), "k" + strings.Repeat("鍵", 190), strings.Repeat("é", 333) + "-z",
+	" lead", "trail ", "nl\n"} // keys are byte strings: white space at either end is part of the key
 
 func genKeys(r *simrt.Rand, lo, hi int) []string {
 	n := lo + r.Intn(hi-lo+1)
@@ -229,7 +230,7 @@ func genSeqCase(r *simrt.Rand, p seqProfile) SeqCase {
 			case 0:
 				c.Ops = append(c.Ops, Op{K: "get", Tx: t + 1, Key: pickKey()})
 			case 1:
-				c.Ops = append(c.Ops, Op{K: "getr", Tx: t + 1, Key: pickKey()})
+				c.Ops = append(c.Ops, readerOp(r, t+1, pickKey()))
 			case 2:
 				c.Ops = append(c.Ops, Op{K: "keys", Tx: t + 1})
 			case 3:
@@ -256,6 +257,7 @@ func genSeqCase(r *simrt.Rand, p seqProfile) SeqCase {
 		case p.txWeight > 0 && len(open) < p.maxTx && r.Intn(100) < 12+p.txWeight/6:
 			b := Op{K: "begin", Tx: nextTx + 1, Level: levels[r.Intn(len(levels))]}
 			b.NoLvl = b.Level == 1 && nextTx%2 == 0 // every other ReadCommitted transaction is begun without naming a level
+			b.Quiet = nextTx%3 == 1                 // every third transaction is not touched (not even read through) before its first own statement
 			c.Ops = append(c.Ops, b)
 			open = append(open, nextTx)
 			nextTx++
@@ -286,13 +288,19 @@ func genSeqCase(r *simrt.Rand, p seqProfile) SeqCase {
 			case 2:
 				c.Ops = append(c.Ops, Op{K: "get", Tx: tx + 1, Key: pickKey()})
 			case 3:
-				c.Ops = append(c.Ops, Op{K: "getr", Tx: tx + 1, Key: pickKey()})
+				c.Ops = append(c.Ops, readerOp(r, tx+1, pickKey()))
 			case 4:
 				c.Ops = append(c.Ops, Op{K: "keys", Tx: tx + 1})
 			default:
 				if p.emptyKey && r.Intn(2) == 0 {
 					id++
-					c.Ops = append(c.Ops, Op{K: "set", Tx: tx + 1, Key: "", ID: id, Size: r.Intn(10)})
+					o := Op{K: "set", Tx: tx + 1, Key: "", ID: id, Size: r.Intn(10)}
+					if id%3 == 0 {
+						// the refused write is a created file (the refusal reaches the writer in a Write
+						// or, at the latest, in Close)
+						o.K, o.Writes = "create", []int{o.Size}
+					}
+					c.Ops = append(c.Ops, o)
 				} else {
 					c.Ops = append(c.Ops, Op{K: "get", Tx: tx + 1, Key: "never-written"})
 				}
@@ -383,3 +391,14 @@ func genDeepChain(r *simrt.Rand, prop string, n int) SeqCase {
 }
 
 func readFile(p string) ([]byte, error) { return os.ReadFile(p) }
+
+// readerOp: a GetReader whose reader is consumed in one of the ways callers consume readers
+// (Shape; Size is the length of the header read first, where there is one).
+func readerOp(r *simrt.Rand, tx int, key string) Op {
+	o := Op{K: "getr", Tx: tx, Key: key}
+	o.Shape = []string{"", "", "copy", "prefix", "prefix", "bufio", "small"}[r.Intn(7)]
+	if o.Shape == "prefix" || o.Shape == "bufio" || o.Shape == "small" {
+		o.Size = []int{1, 16, 40, 100, 2047, 2049}[r.Intn(6)]
+	}
+	return o
+}
